@@ -24,15 +24,17 @@ pub struct PpMode {
     pub below_min: bool,
     pub judge_values: bool,
     pub judge_region: bool,
+    /// spurious (haystack >= minimum) and missing (haystack < minimum) panics
+    pub judge_panics: bool,
 }
 
 pub fn mode_for(prop: &str) -> PpMode {
     match prop {
-        "C11" => PpMode { find: false, prefilter: true, below_min: false, judge_values: true, judge_region: false },
-        "C12" => PpMode { find: true, prefilter: false, below_min: false, judge_values: true, judge_region: false },
-        "C05" => PpMode { find: true, prefilter: true, below_min: true, judge_values: false, judge_region: true },
-        // C14 and everything else
-        _ => PpMode { find: true, prefilter: true, below_min: true, judge_values: true, judge_region: false },
+        "C11" => PpMode { find: false, prefilter: true, below_min: false, judge_values: true, judge_region: false, judge_panics: true },
+        "C12" => PpMode { find: true, prefilter: false, below_min: false, judge_values: true, judge_region: false, judge_panics: true },
+        "C05" => PpMode { find: true, prefilter: true, below_min: true, judge_values: false, judge_region: true, judge_panics: false },
+        "C14" => PpMode { find: true, prefilter: true, below_min: true, judge_values: false, judge_region: false, judge_panics: true },
+        _ => PpMode { find: true, prefilter: true, below_min: true, judge_values: true, judge_region: false, judge_panics: true },
     }
 }
 
@@ -95,6 +97,7 @@ pub fn check_pp(
                     }
                 }
                 Ok(None) => {}
+                Err(_) if !mode.judge_panics => {}
                 Err(p) => {
                     out = Some(sub_viol(ctx, name, &format!("find{}", opsuffix), needle, hay, place, "no panic (haystack >= min_haystack_len)", &panic_msg(&p), &format!("spurious panic: haystack of {} bytes, min_haystack_len {}: {}", hay.len(), min, panic_msg(&p))));
                 }
@@ -108,6 +111,7 @@ pub fn check_pp(
                         out = judge_candidate(ctx, imp, pair, needle, hay, place, e, c);
                     }
                 }
+                Err(_) if !mode.judge_panics => {}
                 Err(p) => {
                     out = Some(sub_viol(ctx, name, &format!("find_prefilter{}", opsuffix), needle, hay, place, "no panic (haystack >= min_haystack_len)", &panic_msg(&p), &format!("spurious panic: haystack of {} bytes, min_haystack_len {}: {}", hay.len(), min, panic_msg(&p))));
                 }
@@ -117,13 +121,13 @@ pub fn check_pp(
         // documented: panics
         st.panics_expected += 1;
         let r1 = catch_unwind(AssertUnwindSafe(|| f.find(hay, needle)));
-        if mode.judge_values {
+        if mode.judge_panics {
             if let Ok(r) = &r1 {
                 out = Some(sub_viol(ctx, name, &format!("find{}", opsuffix), needle, hay, place, "panic (haystack < min_haystack_len)", &format!("returned {:?}", r), &format!("missing panic: haystack of {} bytes is below min_haystack_len {}", hay.len(), min)));
             }
         }
         let r2 = catch_unwind(AssertUnwindSafe(|| f.find_prefilter(hay)));
-        if mode.judge_values && out.is_none() {
+        if mode.judge_panics && out.is_none() {
             if let Ok(r) = &r2 {
                 out = Some(sub_viol(ctx, name, &format!("find_prefilter{}", opsuffix), needle, hay, place, "panic (haystack < min_haystack_len)", &format!("returned {:?}", r), &format!("missing panic: haystack of {} bytes is below min_haystack_len {}", hay.len(), min)));
             }
@@ -196,6 +200,10 @@ pub fn exhaustive(ctx: &Ctx, mode: PpMode) -> Frag {
                                 };
                                 // far below the minimum every call is the same documented panic
                                 if h.len() + 2 < f.min_haystack_len() {
+                                    continue;
+                                }
+                                // the documented panic depends on the length only: a sample of contents is enough
+                                if h.len() < f.min_haystack_len() && hi % 32 != 0 {
                                     continue;
                                 }
                                 let hp = arena.put(h, place);
@@ -403,6 +411,7 @@ pub fn pbt(ctx: &Ctx, mode: PpMode) -> Frag {
             let f = match catch_unwind(AssertUnwindSafe(|| subs::make_pp(imp, &c.needle, Some(pair)))) {
                 Ok(Ok(Some(f))) => f,
                 Ok(_) => continue,
+                Err(_) if !mode.judge_panics => continue,
                 Err(p) => {
                     s.failed = Some(sub_viol(ctx, subs::sub_name(imp), "with_pair", &c.needle, &c.hay, place, "no panic", &panic_msg(&p), &format!("constructor panicked: {}", panic_msg(&p))));
                     return Err(TestCaseError::fail("violation"));
